@@ -6,6 +6,7 @@ package sim
 
 import (
 	"bufio"
+	"encoding/xml"
 	"fmt"
 	"hash/fnv"
 	"io"
@@ -52,7 +53,7 @@ func init() {
 		Real: []string{"Tree.Newick", "Tree.Nexus", "nexus.WriteNexus", "phyloxml.WritePhyloXML", "nexus.Parser", "phyloxml.Parser", "nextstrain.Parser", "newick.Parser",
 			"fileutils.ReadUntilSemiColon", "utils.ReadMultiTrees reader goroutine", "utils.ReadTreeReader"},
 		Simulated: []string{"input byte stream (chunk plan, zero-length reads, buffer size)", "reader goroutine vs. consumer schedule", "position of the malformed tree"},
-		Expected:  []string{"hop:nexus", "hop:nexus+t", "hop:treenexus", "hop:phyloxml", "blanks-after-semicolon", "tree-wrapped-over-lines", "heterogeneous-taxa", "malformed-at-0", "malformed-in-middle", "numeric-names", "rooted-tree", "isprefix-path", "single-vs-multi:nextstrain"},
+		Expected:  []string{"hop:nexus", "hop:nexus+t", "hop:treenexus", "hop:phyloxml", "blanks-after-semicolon", "tree-wrapped-over-lines", "heterogeneous-taxa", "malformed-at-0", "malformed-in-middle", "numeric-names", "rooted-tree", "isprefix-path", "single-vs-multi:nextstrain", "single-vs-multi:phyloxml-foreign"},
 	})
 }
 
@@ -469,6 +470,26 @@ func execC13(t *testing.T, cc any, o *Outcome) {
 		cur = next
 	}
 
+	// ---- a PhyloXML document of the first tree as another program writes it, rooted attribute independent of the shape
+	for _, rooted := range []string{"true", "false"} {
+		doc := foreignPhyloXML(c.Trees[0], rooted)
+		back, ok := readMulti(t, o, "multi/phyloxml-foreign", doc, utils.FORMAT_PHYLOXML, c)
+		if !ok {
+			continue
+		}
+		o.Probe("single-vs-multi:phyloxml-foreign")
+		single, failed := readSingle(o, "single/phyloxml-foreign", doc, utils.FORMAT_PHYLOXML, c)
+		if len(back) != 1 || back[0].id != 0 {
+			o.Fail("multi:ids:phyloxml-foreign", "records %s for one phylogeny\n  document %s", showRecs(back), doc)
+		} else if back[0].err != failed || (!failed && single != back[0].text) {
+			o.Fail("single-vs-multi:phyloxml-foreign", "single reader: failed=%v %s\nmulti reader: error=%v %s\n  document %s", failed, single, back[0].err, back[0].text, doc)
+		} else if !failed {
+			if a, b := shapeOnly(single), shapeOnly(c.Trees[0]); a != b {
+				o.Fail("roundtrip:phyloxml-foreign", "tree read differs in shape or tip names from the document\n  want %s\n  got  %s\n  document %s", b, a, doc)
+			}
+		}
+	}
+
 	// ---- fourth input format: single vs multi on a Nextstrain document of the first tree
 	if hasAllLengths(c.Trees[0]) {
 		doc := nextstrainDoc(c.Trees[0])
@@ -488,6 +509,32 @@ func execC13(t *testing.T, cc any, o *Outcome) {
 			}
 		}
 	}
+}
+
+// foreignPhyloXML writes the model as another program would: one line, the rooted attribute chosen by the caller whatever the shape.
+func foreignPhyloXML(text string, rooted string) string {
+	m := mustModel(text)
+	var b strings.Builder
+	var rec func(n *RNode, top bool)
+	rec = func(n *RNode, top bool) {
+		b.WriteString("<clade>")
+		if n.IsTip() && n.Label != "" {
+			b.WriteString("<name>")
+			xml.EscapeText(&b, []byte(n.Label))
+			b.WriteString("</name>")
+		}
+		if !top && n.HasLen {
+			b.WriteString("<branch_length>" + strconv.FormatFloat(n.Len, 'f', -1, 64) + "</branch_length>")
+		}
+		for _, c := range n.Children {
+			rec(c, false)
+		}
+		b.WriteString("</clade>")
+	}
+	b.WriteString(`<?xml version="1.0" encoding="UTF-8"?><phyloxml xmlns="http://www.phyloxml.org"><phylogeny rooted="` + rooted + `">`)
+	rec(m, true)
+	b.WriteString("</phylogeny></phyloxml>")
+	return b.String()
 }
 
 func mustModel(s string) *RNode {
